@@ -5,20 +5,57 @@ C01 refinement, dated ranges: the decidable class under which the model's filter
 
 Since the pairing windows of `MonthdayRange::Date` are centred on the year the bound has to come from
 (`yearBeforeOffset`: the year of `d - day offset`) the class no longer depends on the day, on year-locality
-or on the size of the shift relative to a year: both day offsets within ±100 000 days (so that every year
-looked at lies in 0 … 20 000, where instances exist and nothing saturates) and a defined meaning.
+or on the size of the shift relative to a year: both day offsets within ±30 000 000 days (so that every year
+looked at — by the code around the year of `d - offset`, by the specification `yearSpan` years around the
+year of `d` — lies in -165 000 … 175 000, where instances exist and no shifted instance saturates at chrono's
+extreme dates), within ±300 000 days when a bound is Easter (every year looked at is then a year ≥ 0, where
+`easter()` is the Gregorian computus), and a defined meaning.
+
+Why not more (notes/DATED-BOUND.md): the specification looks for instances on `3 + (|so| + |eo|) / 365` years on
+EITHER side of the evaluated day, so with two offsets of `B` days an instance `2B` days away from the day is
+shifted by `B` more: beyond `3B ≈ 92 000 000` days its shifted day is pinned at `NaiveDate::MIN/MAX` and the
+strict order of the shifted instances the proofs rest on (`StepMono`) is lost; and `easter()` on a negative
+year is not a date between March 22nd and April 25th (it can be `Feb 30`: no occurrence).
 -/
 namespace OH.Proofs.EvalSpec
 open OH.Model OH.Model.Cal
 open OH.Spec (shift dateInstance exactInstance specYear datedOk candidateYears yearsNear yearSpan isFixedDate datedDefined)
 
-def offSmallD (o : DateOffset) : Bool := decide (-100000 ≤ o.days ∧ o.days ≤ 100000)
+/-- a day offset within ±30 000 000 days (about ±82 000 years) -/
+def offSmallD (o : DateOffset) : Bool := decide (-30000000 ≤ o.days ∧ o.days ≤ 30000000)
 
-/-- Rule-level class (no reference to the day): both day offsets within ±100 000 days, and the range has a
-defined meaning (`datedDefined`: not "no year … year").  Nothing else: any weekday shift, bounds with or
-without a year, single days, ranges longer than a year, offsets that differ by several years. -/
+/-- a day offset within ±300 000 days (about ±820 years): the bound when one side of the range is Easter -/
+def offEasterD (o : DateOffset) : Bool := decide (-300000 ≤ o.days ∧ o.days ≤ 300000)
+
+/-- the two day offsets of a dated range are in the scope of the theorems: within ±30 000 000 days, and
+within ±300 000 days when one of the two dates is Easter -/
+def offsSmallD (s : DateSpec) (so : DateOffset) (e : DateSpec) (eo : DateOffset) : Bool :=
+  offSmallD so && offSmallD eo && ((isFixedDate s && isFixedDate e) || (offEasterD so && offEasterD eo))
+
+/-- under `offsSmallD` there is a first year `L` from which both dates are known (`BoundOK L`) and that the
+specification's candidate years do not go below -/
+theorem offsSmallD_spec (s : DateSpec) (so : DateOffset) (e : DateSpec) (eo : DateOffset)
+    (h : offsSmallD s so e eo = true) :
+    (-30000000 ≤ so.days ∧ so.days ≤ 30000000) ∧ (-30000000 ≤ eo.days ∧ eo.days ≤ 30000000) ∧
+    ∃ L : Int, -165000 ≤ L ∧ (isFixedDate s = false → 0 ≤ L) ∧ (isFixedDate e = false → 0 ≤ L) ∧
+      L + yearSpan so eo ≤ 1899 := by
+  simp only [offsSmallD, offSmallD, offEasterD, Bool.and_eq_true, Bool.or_eq_true, decide_eq_true_eq] at h
+  obtain ⟨⟨hss, hes⟩, hc⟩ := h
+  refine ⟨hss, hes, ?_⟩
+  rcases hc with ⟨fs, fe⟩ | ⟨es, ee⟩
+  · refine ⟨-165000, by omega, by simp [fs], by simp [fe], ?_⟩
+    have := yearSpan_bounds so eo hss hes
+    omega
+  · refine ⟨0, by omega, fun _ => by omega, fun _ => by omega, ?_⟩
+    unfold yearSpan
+    omega
+
+/-- Rule-level class (no reference to the day): the range has a defined meaning (`datedDefined`: not
+"no year … year") and, unless BOTH bounds carry a year (then: any offsets), both day offsets are within
+±30 000 000 days (±300 000 days when a bound is Easter).  Nothing else: any weekday shift, bounds with or
+without a year, single days, ranges longer than a year, offsets that differ by thousands of years. -/
 def datedPlain (s : DateSpec) (so : DateOffset) (e : DateSpec) (eo : DateOffset) : Bool :=
-  offSmallD so && offSmallD eo && datedDefined s e
+  (((specYear s).isSome && (specYear e).isSome) || offsSmallD s so e eo) && datedDefined s e
 
 /-- The class of (dated range, day) pairs the refinement covers: it no longer depends on the day (the
 parameter is kept for the statements that quantify over days). -/
@@ -32,12 +69,17 @@ theorem dated_eq_of_plain (s : DateSpec) (so : DateOffset) (e : DateSpec) (eo : 
   simp only [MonthdayRange.wf, DateOffset.wf, Bool.and_eq_true] at hwf
   obtain ⟨⟨⟨ws, ⟨wso, _⟩⟩, we⟩, ⟨weo, _⟩⟩ := hwf
   unfold datedPlain at hsafe
-  simp only [Bool.and_eq_true, offSmallD, decide_eq_true_eq] at hsafe
-  obtain ⟨⟨hss, hes⟩, hdef⟩ := hsafe
-  have hs : BoundOK s so := ⟨ws, wso, hss⟩
-  have he : BoundOK e eo := ⟨we, weo, hes⟩
+  simp only [Bool.and_eq_true, Bool.or_eq_true] at hsafe
+  obtain ⟨hoff, hdef⟩ := hsafe
   cases hsy : specYear s with
   | none =>
+    have hoff : offsSmallD s so e eo = true := by
+      rcases hoff with h | h
+      · simp [hsy] at h
+      · exact h
+    obtain ⟨hss, hes, L, hL1, hLs, hLe, hL⟩ := offsSmallD_spec s so e eo hoff
+    have hs : BoundOK L s so := ⟨ws, wso, hss, hL1, hLs⟩
+    have he : BoundOK L e eo := ⟨we, weo, hes, hL1, hLe⟩
     cases hey : specYear e with
     | some ey => simp [datedDefined, hsy, hey] at hdef
     | none =>
@@ -50,10 +92,16 @@ theorem dated_eq_of_plain (s : DateSpec) (so : DateOffset) (e : DateSpec) (eo : 
           cases yr with
           | some n => simp [specYear] at hsy
           | none => exact dated_single_eq m dd so eo d wso hss weo hes h1 h2
-      · exact dated_yearless_eq s so e eo d hs he hsy hey hns h1 h2
+      · exact dated_yearless_eq s so e eo d hs he hL hsy hey hns h1 h2
   | some sy =>
     cases hey : specYear e with
-    | none => exact dated_year_yearless_eq s so e eo d hs he sy hsy hey h1 h2
+    | none =>
+      have hoff : offsSmallD s so e eo = true := by
+        rcases hoff with h | h
+        · simp [hey] at h
+        · exact h
+      obtain ⟨hss, hes, L, hL1, hLs, hLe, hL⟩ := offsSmallD_spec s so e eo hoff
+      exact dated_year_yearless_eq s so e eo d ⟨ws, wso, hss, hL1, hLs⟩ ⟨we, weo, hes, hL1, hLe⟩ hL sy hsy hey h1 h2
     | some ey =>
       by_cases hns : s = e ∧ isFixedDate s = true
       · obtain ⟨rfl, hfx⟩ := hns
@@ -63,7 +111,7 @@ theorem dated_eq_of_plain (s : DateSpec) (so : DateOffset) (e : DateSpec) (eo : 
           cases yr with
           | none => simp [specYear] at hsy
           | some n => exact dated_single_year_eq n m dd so eo d wso weo
-      · exact dated_year_year_eq s so e eo d hs he sy ey hsy hey hns h1 h2
+      · exact dated_year_year_eq s so e eo d ws wso we weo sy ey hsy hey hns
 
 theorem dated_eq_of_safe (s : DateSpec) (so : DateOffset) (e : DateSpec) (eo : DateOffset) (d : Int)
     (hwf : (MonthdayRange.date s so e eo).wf = true) (hsafe : datedSafe s so e eo d = true)
